@@ -54,7 +54,15 @@ func (info *decodeInfo) decodeCharString(code []byte, name string) (*Glyph, erro
 		res.Cmds = append(res.Cmds, GlyphOp{Op: OpClosePath})
 		isClosed = true
 	}
+	inFlex := false
 	rMoveTo := func(dx, dy float64) {
+		if inFlex {
+			// the moves between the start and the end of a flex only
+			// position the reference and control points
+			posX += dx
+			posY += dy
+			return
+		}
 		if !isClosed {
 			rClosePath()
 		}
@@ -388,6 +396,7 @@ glyphLoop:
 
 				switch idx {
 				case 0: // flex end (3 args, 2 returns)
+					inFlex = false
 					if len(flexData) == 14 {
 						res.Cmds = append(res.Cmds, GlyphOp{
 							Op: OpCurveTo,
@@ -408,12 +417,9 @@ glyphLoop:
 					postscriptStack = postscriptStack[:len(postscriptStack)-1]
 				case 1: // flex start (0 args)
 					flexData = flexData[:0]
+					inFlex = true
 				case 2: // flex coordinate pair (0 args)
 					flexData = append(flexData, posX, posY)
-					if len(res.Cmds) > 0 {
-						// remove the rmoveTo command
-						res.Cmds = res.Cmds[:len(res.Cmds)-1]
-					}
 				case 3: // hint replacement (1 arg)
 					postscriptStack = append(postscriptStack[:0], 3)
 				default:
